@@ -358,6 +358,7 @@ package protocol
 //@   requires 0 <= d.remain && d.remain <= 0x7fffffff
 //@   option noframe
 //@   modifies heap
+//@   ensures 0 <= d.remain && d.remain <= 0x7fffffff
 //@ func (*RecordSet).readFromVersion2
 //@   requires 0 <= d.remain && d.remain <= 0x7fffffff
 //@   option noframe
@@ -372,6 +373,7 @@ package protocol
 //@   requires 0 <= d.remain && d.remain <= 0x7fffffff
 //@   option noframe
 //@   modifies heap
+//@   loop 0 invariant d#1 != nil && 0 <= d#1.remain && d#1.remain <= 0x7fffffff
 //@   loop 2 invariant same(r.records, loopentry(r.records)) && -1 <= rangeindex && rangeindex < len(r.records)
 //@   loop 2 invariant forall j :: 0 <= j && j <= rangeindex ==> r.records[j].Offset == baseOffset - (int64(len(r.records)) - 1 - loopentry(r.records[j].Offset))
 //@   loop 2 invariant forall j :: rangeindex < j && j < len(r.records) ==> r.records[j].Offset == loopentry(r.records[j].Offset)
